@@ -11,6 +11,7 @@ import (
 	"regexp"
 	"runtime"
 	"runtime/debug"
+	"runtime/pprof"
 	"sort"
 	"strconv"
 	"strings"
@@ -119,6 +120,13 @@ func memWatch() {
 		for {
 			runtime.ReadMemStats(&ms)
 			if int64(ms.HeapInuse) > limit {
+				if pf := os.Getenv("VERIF_HEAPPROF"); pf != "" && atomic.LoadInt32(&memExceeded) == 0 {
+					if f, err := os.Create(pf); err == nil {
+						_ = pprof.WriteHeapProfile(f)
+						f.Close()
+					}
+					fmt.Fprintf(os.Stderr, "memory budget exceeded: heap in use %d MB, goroutines %d\n", ms.HeapInuse>>20, runtime.NumGoroutine())
+				}
 				atomic.StoreInt32(&memExceeded, 1)
 				debug.FreeOSMemory()
 			}
